@@ -9,6 +9,6 @@ if git -C $W diff --quiet; then echo "sed changed nothing"; git -C /repo worktre
 (cd $W && GOFLAGS=-mod=mod GOPROXY=off go build ./... ) || { echo "mutant does not build"; git -C /repo worktree remove --force $W; exit 3; }
 cd /verif && VERIF_REPO=$W ./check $ID ${TIER:-quick} > /tmp/sedmut.out 2>&1; rc=$?
 git -C /repo worktree remove --force $W
-git -C /verif checkout -- evidence 2>/dev/null
+
 grep -E '^(VIOLATION|INCONCLUSIVE|MODEL-DRIFT)' -A1 /tmp/sedmut.out | cut -c1-260 | head -6
 echo "exit=$rc"
